@@ -3,6 +3,7 @@ package pool
 import (
 	"context"
 	"fmt"
+	"strings"
 
 	"github.com/vipnode/vipnode/v2/internal/verifapi"
 	"github.com/vipnode/vipnode/v2/internal/verifmodels/faultstore"
@@ -37,6 +38,20 @@ func VerifC09History() {
 	for i := range latest {
 		latest[i] = -1
 	}
+	// a host may spell its node id in upper case or with a 0x prefix (the signature check accepts
+	// either): to the pool that string IS its identity, on every path
+	hostID := make([]string, nh)
+	for h := range hostID {
+		hostID[h] = verifapi.NodeID(1 + h)
+		if verifapi.Param("spellings", 0) == 1 {
+			switch verifapi.Choose(fmt.Sprint("spelling", h), 3) {
+			case 1:
+				hostID[h] = strings.ToUpper(hostID[h])
+			case 2:
+				hostID[h] = "0x" + hostID[h]
+			}
+		}
+	}
 	events := verifapi.Param("events", 3)
 	for e := 0; e < events; e++ {
 		k := verifapi.Choose(fmt.Sprint("event", e), nh*nc+nc+1)
@@ -50,7 +65,7 @@ func VerifC09History() {
 			if faults && verifapi.Bool(fmt.Sprint("storagefault", e)) {
 				fs.Arm(0, "SetNode")
 			}
-			_, err := VerifConnect(p, conns[c], verifapi.NodeID(1+h), true, "")
+			_, err := VerifConnect(p, conns[c], hostID[h], true, "")
 			faulted := fs.Failed != ""
 			fs.Disarm()
 			opened[c] = true
@@ -83,7 +98,7 @@ func VerifC09History() {
 				ambiguous = true
 				continue
 			}
-			id := store.NodeID(verifapi.NodeID(1 + h))
+			id := store.NodeID(hostID[h])
 			reg, ok := p.remoteHosts[id]
 			can := latest[h] >= 0 && live[latest[h]]
 			verifapi.Class("close-of-old-connection-unregisters-new", true)
